@@ -339,13 +339,14 @@ def _dec(args, watch=None, kwargs=None):
     return {"args": args, "watch": watch, "kwargs": kwargs, "form": "witness"}
 
 
-# the closed witnesses of Props/C04, replayed on the real code on every run (known findings C04-F1..F4)
+# the closed witnesses of Props/C04, replayed on the real code on every run (open findings C04-F1, F3, F4; the second
+# scenario is the regression case of the fixed C04-F2 and must be clean under both subsystems)
 WITNESSES = [
     # C04_cex_burst_*: pyscript.b exists before the trigger starts, burst a := 1; b := 5
     {"ents": ["pyscript.x", "pyscript.y"], "pre": {"pyscript.y": ["0", {}]},
      "funcs": [{"decs": [_dec([{"k": "expr", "ex": ["and", ["eq", ["pyscript.x"], "1"], ["eq", ["pyscript.y"], "0"]]}])]}],
      "hist": [[["set", "pyscript.x", "1", {}], ["set", "pyscript.y", "5", {}]]]},
-    # C04_new_cex_noexpr: only an any-change name, watch= lists another variable
+    # C04_new_regress_noexpr (fixed by 5a43b84): only an any-change name, watch= lists another variable
     {"ents": ["pyscript.x", "pyscript.y"], "pre": {},
      "funcs": [{"decs": [_dec([{"k": "any", "name": ["pyscript.x"]}], watch=["pyscript.x", "pyscript.y"])]}],
      "hist": [[["set", "pyscript.y", "5", {}]]]},
@@ -838,9 +839,7 @@ def _diff(c):
             for x, what in [(y, "extra") for y in gm] + [(y, "missing") for y in em]:
                 ctx = json.loads(x)[0]
                 t = tags.get((fi, ctx), set())
-                if "noexpr" in t and what == "extra" and not c.payload["legacy"]:
-                    out.append(("new:noexpr-watched-change-runs", f"f{fi} ctx {ctx} {what}"))
-                elif "undef" in t:
+                if "undef" in t:
                     out.append(("both:unwatched-name-undefined-raises", f"f{fi} ctx {ctx} {what}"))
                 elif "live" in t and (burst or ("watch-subset" in tags.get((fi, "ws"), set()))):
                     out.append(("both:unbound-name-read-live-in-burst", f"f{fi} ctx {ctx} {what}"))
@@ -862,7 +861,7 @@ def _diff(c):
     return out
 
 
-PRIORITY = ["unexplained", "new:noexpr-watched-change-runs", "both:unwatched-name-undefined-raises",
+PRIORITY = ["unexplained", "both:unwatched-name-undefined-raises",
             "both:unbound-name-read-live-in-burst", "both:stacked-decorators-burst-order"]
 
 
